@@ -2,3 +2,4 @@ import SimVerif.Model.Wire
 import SimVerif.Model.Nms
 import SimVerif.Lemmas.Nms
 import SimVerif.Props.C14
+import SimVerif.Props.C20
